@@ -8,6 +8,7 @@
 // z=null-terminated pointer; hex = fixed-width big-endian hex per code unit.
 #include "upa/url.h"
 #include <cstdio>
+#include <cctype>
 #include <cstdint>
 #include <cstdlib>
 #include <cstring>
@@ -336,6 +337,30 @@ static std::string guarded(F f) {
     catch (...) { return "EXC unknown"; }
 }
 
+// ---- size arithmetic of upa::simple_buffer / upa::util (tie of coq/theories/Impl/Buffer.v) ----
+// An allocator that reports a chosen max_size() and hands out at most 256 KiB of real memory:
+// the commands below only ever store <= 128 KiB, whatever capacity the buffer believes it has.
+static thread_local std::size_t g_fake_max = 0;
+template <class T> struct FakeAlloc {
+    using value_type = T;
+    FakeAlloc() = default;
+    template <class U> FakeAlloc(const FakeAlloc<U>&) {}
+    T* allocate(std::size_t n) { return static_cast<T*>(::operator new(n < (1u << 18) ? (n ? n : 1) : (1u << 18))); }
+    void deallocate(T* p, std::size_t) { ::operator delete(p); }
+    std::size_t max_size() const noexcept { return g_fake_max; }
+    bool operator==(const FakeAlloc&) const { return true; }
+    bool operator!=(const FakeAlloc&) const { return false; }
+};
+using FakeBuf = upa::simple_buffer<char, 4, std::char_traits<char>, FakeAlloc<char>>;
+static std::size_t sz_of(const std::string& t) { return static_cast<std::size_t>(std::strtoull(t.c_str(), nullptr, 10)); }
+// bring a FakeBuf to (size, capacity) with real storage behind it; size <= capacity <= 65536
+static bool fake_setup(FakeBuf& b, std::size_t size, std::size_t cap) {
+    if (size > cap || cap > 65536) return false;
+    if (cap > 4) { b.data_ = FakeAlloc<char>().allocate(cap); }
+    b.capacity_ = cap; b.size_ = size;
+    return true;
+}
+
 static std::string run_cmd(const std::vector<std::string>& a) {
     using namespace upa;
     const std::string& c = a[0];
@@ -583,6 +608,25 @@ static std::string run_cmd(const std::vector<std::string>& a) {
         upa::url_search_params::name_value_list l; WITH_STR(t, S, l = upa::url_search_params::do_parse(rem, S));
         std::ostringstream o; o << "urlenc_parse "; bool f = true; for (auto& kv : l) { o << (f ? "" : ",") << hx(kv.first) << "=" << hx(kv.second); f = false; } if (f) o << "-"; return o.str(); }
     if (c == "icuinfo") { std::ostringstream o; o << "icuinfo options=" << g_icu_options.load() << " open_calls=" << g_icu_open_calls.load() << " toascii_calls=" << g_icu_toascii_calls.load(); return o.str(); }
+    if (c == "buf_add") { need(3); g_fake_max = sz_of(a[1]); FakeBuf b;
+        try { const std::size_t r = b.add_sizes(sz_of(a[2]), sz_of(a[3])); return "buf_add ok " + std::to_string(r); } catch (const std::length_error&) { return "buf_add length_error"; } }
+    if (c == "buf_grow") { need(3); g_fake_max = sz_of(a[1]); FakeBuf b; b.capacity_ = sz_of(a[2]);   // size_ = 0: nothing is copied
+        try { b.grow(sz_of(a[3])); const std::size_t r = b.capacity_; if (b.data_ == b.fixed_buffer()) b.capacity_ = 4; return "buf_grow ok " + std::to_string(r); }
+        catch (const std::length_error&) { b.capacity_ = 4; return "buf_grow length_error"; } }
+    if (c == "buf_push") { need(3); g_fake_max = sz_of(a[1]); FakeBuf b; if (!fake_setup(b, sz_of(a[2]), sz_of(a[3]))) return "ERR";
+        try { b.push_back('x'); return "buf_push ok " + std::to_string(b.size_) + " " + std::to_string(b.capacity_); } catch (const std::length_error&) { return "buf_push length_error"; } }
+    if (c == "buf_append") { need(4); g_fake_max = sz_of(a[1]); FakeBuf b; const std::size_t n = sz_of(a[4]); if (n > 65536 || !fake_setup(b, sz_of(a[2]), sz_of(a[3]))) return "ERR";
+        const std::string src(n, 'y');
+        try { b.append(src.data(), src.data() + n); return "buf_append ok " + std::to_string(b.size_) + " " + std::to_string(b.capacity_); } catch (const std::length_error&) { return "buf_append length_error"; } }
+    if (c == "util_add") { need(3);
+        try { return "util_add ok " + std::to_string(upa::util::add_sizes(sz_of(a[1]), sz_of(a[2]), sz_of(a[3]))); } catch (const std::length_error&) { return "util_add length_error"; } }
+    if (c == "util_diff") { need(2);
+        try { return "util_diff ok " + std::to_string(upa::util::checked_diff<std::ptrdiff_t>(sz_of(a[1]), sz_of(a[2]))); } catch (const std::length_error&) { return "util_diff length_error"; } }
+    if (c == "util_u2s") { need(2); const uint32_t base = static_cast<uint32_t>(sz_of(a[2])); if (base < 2 || base > 16) return "ERR";
+        std::string o; upa::util::unsigned_to_str<uint32_t>(static_cast<uint32_t>(sz_of(a[1])), o, base);
+        for (char ch : o) if (!std::isxdigit(static_cast<unsigned char>(ch))) return "util_u2s bad-digit";
+        if (std::strtoull(o.c_str(), nullptr, static_cast<int>(base)) != static_cast<uint32_t>(sz_of(a[1]))) return "util_u2s wrong-value";
+        return "util_u2s " + std::to_string(o.length()); }
     if (c == "reset") { for (int i = 0; i < NSLOT; ++i) { g_url[i].reset(); g_sp[i] = nullptr; g_usp[i].reset(); } return "reset"; }
     // fault injection: "fail <n> <command...>" runs the command with the n-th allocation failing
     return "ERR unknown-command";
